@@ -1,0 +1,60 @@
+// SPDX-FileCopyrightText: 2026 The Pion community <https://pion.ly>
+// SPDX-License-Identifier: MIT
+
+//go:build verif && !js
+
+package webrtc
+
+// Verification hooks for PeerConnection.Close / GracefulClose (C21).
+
+// VerifICEStateChange delivers an ICE transport state change to the PeerConnection exactly as the
+// ICE agent's notifier goroutine does: through ICETransport.onConnectionStateChange, i.e. the user
+// handler, then the internal handler installed by createICETransport (onICEConnectionStateChange
+// followed by updateConnectionState). It runs on the calling goroutine.
+func VerifICEStateChange(pc *PeerConnection, cs ICEConnectionState) {
+	var st ICETransportState
+	switch cs {
+	case ICEConnectionStateNew:
+		st = ICETransportStateNew
+	case ICEConnectionStateChecking:
+		st = ICETransportStateChecking
+	case ICEConnectionStateConnected:
+		st = ICETransportStateConnected
+	case ICEConnectionStateCompleted:
+		st = ICETransportStateCompleted
+	case ICEConnectionStateFailed:
+		st = ICETransportStateFailed
+	case ICEConnectionStateDisconnected:
+		st = ICETransportStateDisconnected
+	case ICEConnectionStateClosed:
+		st = ICETransportStateClosed
+	default:
+		st = ICETransportStateUnknown
+	}
+	pc.iceTransport.onConnectionStateChange(st)
+}
+
+// VerifCloseChannels reports whether close() has closed isCloseDone / isGracefulCloseDone (so that a
+// scheduler can tell a waiter that would block from one that would not, without releasing it).
+func VerifCloseChannels(pc *PeerConnection) (closeDone, gracefulDone bool) {
+	select {
+	case <-pc.isCloseDone:
+		closeDone = true
+	default:
+	}
+	select {
+	case <-pc.isGracefulCloseDone:
+		gracefulDone = true
+	default:
+	}
+
+	return closeDone, gracefulDone
+}
+
+// VerifOpsClosed reports whether the operations queue has been closed by GracefulClose.
+func VerifOpsClosed(pc *PeerConnection) bool {
+	pc.ops.mu.Lock()
+	defer pc.ops.mu.Unlock()
+
+	return pc.ops.isClosed
+}
